@@ -43,3 +43,7 @@ class ScriptedRng:
 
     def uniform(self, low=0.0, high=1.0, size=None):
         return np.asarray(self.uniforms.pop(0), dtype=float)
+
+    def permutation(self, n):
+        self.other_calls = getattr(self, "other_calls", 0) + 1
+        return np.arange(int(n))
